@@ -369,6 +369,9 @@ func renamedFunc(t *Tree, pkg, typ, name string) *ssa.Function {
 
 // fnName: the name a function had on the pinned tree (its own name unless it was resolved as a rename).
 func fnName(f *ssa.Function) string {
+	if f == nil {
+		return ""
+	}
 	if c, ok := canonFuncOf[f]; ok {
 		return c
 	}
@@ -433,7 +436,8 @@ func pname(p *ssa.Parameter) string {
 			}
 			_ = c
 		}
-		if names, ok := ref.Params[f.Pkg.Pkg.Path()][key]; ok && len(names) == len(f.Params) {
+		if names, ok := ref.Params[f.Pkg.Pkg.Path()][key]; ok && len(names) == len(f.Params) && !sameNameSet(names, f.Params) {
+			// (a parameter list that only changed its order keeps its names: each name still means the same operand)
 			for i, q := range f.Params {
 				if q == p && names[i] != "" && names[i] != "_" {
 					n = names[i]
@@ -443,4 +447,39 @@ func pname(p *ssa.Parameter) string {
 	}
 	pnameMemo[p] = n
 	return n
+}
+
+func sameNameSet(names []string, ps []*ssa.Parameter) bool {
+	cnt := map[string]int{}
+	for _, n := range names {
+		cnt[n]++
+	}
+	for _, p := range ps {
+		cnt[p.Name()]--
+	}
+	for _, c := range cnt {
+		if c != 0 {
+			return false
+		}
+	}
+	return true
+}
+
+// roleParam: the parameter of f that plays the part the parameter at position i played on the pinned tree: when the
+// parameter list only changed its order, the one that still has that name; otherwise the one at the position.
+func roleParam(f *ssa.Function, i int) *ssa.Parameter {
+	if f == nil || i >= len(f.Params) {
+		return nil
+	}
+	if f.Parent() == nil && f.Pkg != nil {
+		ref := loadAnchors()
+		if names, ok := ref.Params[f.Pkg.Pkg.Path()][canonicalKey(f)]; ok && len(names) == len(f.Params) && sameNameSet(names, f.Params) {
+			for _, p := range f.Params {
+				if p.Name() == names[i] {
+					return p
+				}
+			}
+		}
+	}
+	return f.Params[i]
 }
